@@ -39,7 +39,8 @@ theorem good_init (cap : Cap) (L R : Bool) (simple : Option SpawnSpec) : Good ca
    ⟨fun t tk h _ => by simp [Pool.init] at h, fun m r h => by simp [Pool.init] at h,
     fun m r h => by simp [Pool.init] at h, fun m r h => by simp [Pool.init] at h⟩,
    ⟨fun t tk h => by simp [Pool.init] at h, fun m r h => by simp [Pool.init] at h,
-    fun m r h => by simp [Pool.init] at h⟩⟩
+    fun m r h => by simp [Pool.init] at h⟩,
+   fun m r c u h => by simp [Pool.init] at h⟩
 
 theorem goodC_invariant : PoolInvariant GoodC noSetSize where
   init := by
@@ -63,7 +64,7 @@ theorem good_setSize {cap : Cap} {L : Bool} (p : Pool) (v : Int) (hg : Good cap 
   split
   · exact ⟨cap, hg⟩
   · exact ⟨.fin (v.toNat + heldL p.tasks + grantsL p.sem.waiters), ⟨⟨v.toNat, rfl, rfl⟩, hg.phase,
-      hg.reg.of_eq rfl rfl rfl rfl rfl, hg.grp.of_eq rfl rfl, hg.life.of_eq rfl rfl, hg.fl.frame rfl rfl (fun _ h => h), fun h => Bool.noConfusion h, fun h => Bool.noConfusion h, hg.ll, hg.al⟩, hg.map.of_eq rfl rfl, hg.acc.of_eq rfl rfl⟩
+      hg.reg.of_eq rfl rfl rfl rfl rfl, hg.grp.of_eq rfl rfl, hg.life.of_eq rfl rfl, hg.fl.frame rfl rfl (fun _ h => h), fun h => Bool.noConfusion h, fun h => Bool.noConfusion h, hg.ll, hg.al⟩, hg.map.of_eq rfl rfl, hg.acc.of_eq rfl rfl, hg.canc.of_eq rfl rfl⟩
 
 /-- phase and registry invariants (with *some* slot conservation) hold in every pool after **every** history,
 assignments to `pool_size` included -/
@@ -168,6 +169,13 @@ theorem accAll (base : Nat) (h : History) (i : Nat) (c : Cfg) (p : Pool)
     AccOK p := by
   obtain ⟨cap, hg⟩ := (World.reachable baseC_invariant base h (fun x _ => admits_all x)).inv i c p hc hp
   exact hg.acc
+
+/-- cancelled spawners stay stopped, in every pool of every reachable world, whatever the history -/
+theorem cancAll (base : Nat) (h : History) (i : Nat) (c : Cfg) (p : Pool)
+    (hc : ((World.init base).run h).cfgs[i]? = some c) (hp : ((World.init base).run h).pools[i]? = some p) :
+    CancOK p := by
+  obtain ⟨cap, hg⟩ := (World.reachable baseC_invariant base h (fun x _ => admits_all x)).inv i c p hc hp
+  exact hg.canc
 
 /-- the number of workers that have begun and not finished -/
 def Pool.live (p : Pool) : Nat := p.tasks.countP (fun t => t.phase == .inWorker)
